@@ -3,5 +3,5 @@ CONSTANTS
   Addr = {"a1", "a2", "a3", "a4"}
   Node = {"n1", "n2"}
   Procs = {1}
-INVARIANTS TypeOK Partition
+INVARIANTS TypeOK Partition AnswersAgree
 CHECK_DEADLOCK FALSE
